@@ -389,10 +389,20 @@ func s14() *sched.Scenario {
 
 // S15: the server is closed while a Connect of a TCP allocation is still dialling its peer (the dial takes 2 s);
 // the dial then succeeds and the handler goes on with an allocation that has been closed under it.
-func s15() *sched.Scenario {
-	return &sched.Scenario{Name: "S15-server-close-during-a-slow-connect-dial", Bound: bound(), FreeBound: -1, Opt: opt,
+func s15() *sched.Scenario { return s15dial("S15-server-close-during-a-slow-connect-dial", 2*time.Second) }
+
+// S16: the same, but the dial completes at the very instant the server is closed, so that the handler's
+// registration of the new connection interleaves with every step of the teardown (the manager closing the
+// allocation, the relay listener's accept loop noticing it and deleting the allocation).
+func s16() *sched.Scenario { return s15dial("S16-connect-dial-completes-while-the-server-closes", time.Second) }
+
+func s15dial(name string, dial time.Duration) *sched.Scenario {
+	o := opt
+	o.IdleTies = true
+
+	return &sched.Scenario{Name: name, Bound: bound(), FreeBound: -1, Opt: o,
 		Body: func(*vsched.Sched) (func() []string, func()) {
-			w := sched.NewBW(sched.BCfg{Stream: true, SlowDial: 2 * time.Second, CB: yieldCB})
+			w := sched.NewBW(sched.BCfg{Stream: true, SlowDial: dial, CB: yieldCB})
 			c := w.NewClient("c1")
 			if _, err := w.Net.ListenTCPAddr("tcp4", &net.TCPAddr{IP: vtx.PeerSpec["B"].IP, Port: 5000}); err != nil {
 				panic(err)
@@ -414,7 +424,7 @@ func s15() *sched.Scenario {
 }
 
 func scenarios() []*sched.Scenario {
-	return []*sched.Scenario{s1(), s2(), s3(), s4(), s5(), s6(), s7(), s8(), s10(), s11(), s12(), s13(), s14(), s15()}
+	return []*sched.Scenario{s1(), s2(), s3(), s4(), s5(), s6(), s7(), s8(), s10(), s11(), s12(), s13(), s14(), s15(), s16()}
 }
 
 func TestC18Sched(t *testing.T) {
